@@ -18,9 +18,22 @@ Optional fields (round 3s streams; absent = the defaults of the original streams
           the range of that dtype although every length fits;
   "ixdt": dtype of ndarray index arrays; "ixview": True = the index arrays are columns of one 2-D table (views);
   "again": {"lens": [..]}  the SAME index objects are used for a second read, on a second array with these lengths.
+  "sdt":  dtype of the integer SCALARS of the index (a[np.int8(r), np.int8(c)], a[[..], np.int8(c)], ...);
+  idx["np"]: True = both index vectors are ndarrays, "r" / "c" = only the row / column vector is (the other a list);
+  a "pairs" index whose two vectors differ in length is paired by broadcasting (one of them has one entry).
 Result may carry "argmod" (an index object passed to __getitem__ was changed by the read) and "again" (second read).
 Elements of width w > 0 are the vectors [v, v+1000, .., v+1000(w-1)]; they are canonicalised back to v (after
 checking the pattern), so the model works over Z throughout.
+Typed-element streams (oracle only; field "el"): the elements are NOT platform integers.
+  "el": "mixed"  nested construction from rows of DIFFERENT dtypes: "rowdt" = dtype name per row (None = the row is a
+                 plain Python list), "rvals" = the rows' values (bools / ints / dyadic floats; w = 2: pairs of them);
+                 the list-of-rows reference is np.concatenate of the rows as given, cut at the row lengths;
+  "el": "obj"    dtype=object data: "okind" bigint (Python ints beyond int64 in nested lists) | frac (Fractions in
+                 nested lists) | objflat (flat dtype=object ndarray + lengths) | rag3 (ragged third dimension: every
+                 element is itself a list of ints, the element lengths differ); "rvals" holds the encoded elements
+                 (int | ["F", num, den] | ["A", [ints]]).
+  Results of these streams carry the values as encoded elements, "dts" (dtype names of every array returned) and, for
+  RaggedArray results, "shape2" (first two entries of the result's shape).
 """
 import itertools
 import os
@@ -56,6 +69,28 @@ RULE = ("thorough: exhaustive small scope -- all 84 length vectors with <= 3 row
         "oracle-only-large), plus every integer dtype without a wrap; (index arguments) index objects that are ndarrays "
         "of int8..int64 with negative entries, also two columns of one table (views): the objects must be unchanged "
         "after the read and are used again for a second read on an array with other row lengths. "
+        "Index-dtype stream (quick 280+16, thorough 2800+96): index vectors (ndarrays, also two columns of one table, "
+        "also one ndarray and one list) and index scalars (np.int8(r) ...) of dtype int8 / uint8 / int32 / uint32 / uint64 "
+        "on arrays with 2-3 rows of 130..298 elements or 130..315 rows of 1..2 elements, and of dtype int16 / uint16 on "
+        "arrays with rows of 32770+/65538+ elements or that many rows (oracle only), so that negative row + number of rows, "
+        "negative column + row length and row start + column leave the range of the index dtype; specs (dtype x shape x 14 "
+        "read forms) are dealt from a deck, so every combination occurs under every seed; 8% hold an entry outside its row. "
+        "Broadcast stream (quick 180, thorough 1800): a[R, C] with index vectors of different lengths, one of them with one "
+        "entry -- n against 1, 1 against n, 1 against 1 -- and the scalar mixes a[[r], c], a[r, [c]], a[[..], c], a[r, [..]]; "
+        "as two lists, two ndarrays, one of each; the list-of-rows reference pairs them as NumPy pairs index arrays, by "
+        "broadcasting (the Coq model: bpairs). "
+        "Typed-element streams (oracle only -- the Coq model works over Z; quick 300+240, thorough 3000+2400), every read "
+        "form and the attributes on each: (mixed) nested construction from rows of DIFFERENT dtypes, dealt from a deck of "
+        "(first-row dtype, wider dtype) pairs -- int then float, bool then int, bool then float, int8 then int16/int64, "
+        "uint8 then int16/uint16, float32 then float64, ... -- as ndarrays and as plain Python lists, with a later row wider "
+        "than the first (values outside the first row's dtype: 300 after int8, 0.5 after int, 2 after bool), the widest "
+        "row first, and uniform rows; scalar elements and pairs; the list-of-rows reference is np.concatenate of the rows "
+        "cut at the row lengths (values, Python type of every scalar, dtype of every array returned, the dtype attribute); "
+        "(object) dtype=object data -- Python ints beyond int64 and uint64 in nested lists, Fractions, an explicit "
+        "dtype=object flat array with lengths (list / ndarray), a ragged third dimension -- with one or several rows, "
+        "equally long as often as not: lengths, starts, shape, size, len, dtype, iteration, a[i], flatten and every read; "
+        "a RaggedArray returned by a read is also asked for its shape (first two entries: number of rows, common row "
+        "length or None). "
         "non-trivial := at least 2 rows, and the read either succeeds with a non-empty result that is not the "
         "whole array or is an error case")
 TRUSTED = ["translator/tr_ragged.py + translator/py2coq.py: _slice_to_list whole (dynamic int-or-None fragment); the scalar "
@@ -63,18 +98,26 @@ TRUSTED = ["translator/tr_ragged.py + translator/py2coq.py: _slice_to_list whole
            "expression translated; the NumPy statement shapes recognised and plugged into the per-element "
            "skeletons of Base/RaBase.v; _get_iis_from_slices/_get_iis_from_list/where and the call sites in "
            "__getitem__ pinned as text (any other shape: rejected)",
-           "modelled not verified: slice.indices, range, NumPy broadcasting of the two index vectors",
+           "modelled not verified: slice.indices, range, NumPy broadcasting of the two index vectors (bpairs: equal "
+           "lengths element by element, one entry against all; np.broadcast_arrays in _convert_from_2d), conversion of "
+           "integer index arrays of any width to platform integers (_index_array: the model works over Z)",
            "modelled not verified: NumPy basic/fancy indexing of the row-object array (_array[i], _array[slice], "
            "_array[list]) and of the flat data (_data[flat indices]), np.cumsum, np.where, np.concatenate",
            "harness canonicalisation: a RaggedArray result is read back through its rows (_array), its flat data "
            "and its lengths, and these three must agree"]
 ASSUMPTIONS = ["row lengths are positive in the arrays being read (property wording); a read may return empty rows",
-               "element types: all data are platform integers; of the dtype of what a read returns the KIND is compared "
+               "element types: in the streams compared with the Coq model all data are platform integers; the typed-element "
+               "streams (bool / int8..int64 / uint8..uint16 / float32 / float64 rows mixed in one nested construction, "
+               "dtype=object data) are compared with the list of rows by the oracle only, dtype names included",
+               "element types (integer streams): of the dtype of what a read returns the KIND is compared "
                "(numpy dtype.kind, here 'i'): for an ndarray result the kind of that array; for a RaggedArray result the "
                "kinds of every stored row (_array), every iterated row, every row read back by result[i], and of the flat "
                "data; for attrs the kinds of the iterated rows, of a[i] for every i and of flatten(). Arrays without "
                "elements are skipped (their dtype is not determined by the data). Itemsize / byte order are not compared",
-               "index lists are non-empty integer lists; the two lists of a paired index have equal length"]
+               "index lists are non-empty integer lists; the two lists of a paired index have equal length or one of them "
+               "has exactly one entry (NumPy broadcasting); other unequal lengths are not generated (the model says: raises)",
+               "index entries fit the dtype they are held in; 32- and 64-bit index dtypes are exercised without leaving "
+               "their range (no array that large fits in memory)"]
 EXHAUSTIVE = {"thorough": True, "quick": False}
 SHARD = 400
 
@@ -301,10 +344,325 @@ def _ixarg_cases(rng, n):
     return cases
 
 
+# ---- index dtypes whose range the index arithmetic leaves; index vectors paired by broadcasting ----------------
+IXR = {"int8": (-2 ** 7, 2 ** 7 - 1), "uint8": (0, 2 ** 8 - 1), "int16": (-2 ** 15, 2 ** 15 - 1),
+       "uint16": (0, 2 ** 16 - 1), "int32": (-2 ** 31, 2 ** 31 - 1), "uint32": (0, 2 ** 32 - 1),
+       "int64": (-2 ** 63, 2 ** 63 - 1), "uint64": (0, 2 ** 64 - 1)}
+IX_SMALL = ["int8", "uint8", "int32", "uint32", "uint64"]     # arrays of <= 600 elements (also evaluated in Coq)
+IX_BIG = ["int16", "uint16"]                                   # tens of thousands of elements / rows: oracle only
+IX_FORMS = ["pairs", "pairs_view", "pairs_mixed", "pairs_scalar", "pairs_npscalar", "elem_list", "npelem_list",
+            "elem", "sl2_ls", "sl2_sl", "sl2_si", "rowlist", "row", "rowsl"]
+IX_FORMS_BIG = ["pairs", "pairs_npscalar", "elem_list", "elem", "sl2_ls", "sl2_sl", "pairs_view", "npelem_list"]
+
+
+def _ix_top(dt):
+    """the size the array has to pass: the dtype's maximum for the 8- and 16-bit types; the wider ones cannot be
+    passed by an array that fits in memory and get the int8 sizes (dtype handling without a wrap)"""
+    return IXR[dt][1] if dt in ("int8", "uint8", "int16", "uint16") else 127
+
+
+def _ix_lens(rng, dt, shape):
+    """row lengths with which resolving an index held in dtype dt leaves the dtype's range: rows longer than its
+    maximum ("long": a negative column + row length, row start + column) or more rows than its maximum ("many":
+    a negative row + number of rows)."""
+    top = _ix_top(dt)
+    if shape == "long":
+        nr = 2 if top != 127 or rng.random() < 0.6 else 3
+        lo, hi = (132, 290 if nr == 2 else 195) if top == 127 else (260, 298) if top == 255 else (top + 5, top + 400)
+        return [rng.randint(lo, hi)] * nr if rng.random() < 0.3 else [rng.randint(lo, hi) for _ in range(nr)]
+    nr = rng.randint(top + 5, top + (60 if top < 300 else 300))
+    lens = [1] * nr if rng.random() < 0.25 else [rng.choice([1, 1, 2]) for _ in range(nr)]
+    while top < 300 and sum(lens) > 600:
+        lens[lens.index(2)] = 1
+    return lens
+
+
+def _ix_pick(rng, n, dt, mode=None):
+    """an index into a sequence of length n that dtype dt can hold: mode "neg" a negative one (signed types), "top"
+    one of the largest, "bad" one outside the sequence (None if the dtype holds none), else any."""
+    dlo, dhi = IXR[dt]
+    lo, hi = max(-n, dlo), min(n - 1, dhi)
+    if mode == "bad":
+        cands = [x for x in (n, -n - 1, n + 1) if dlo <= x <= dhi]
+        return rng.choice(cands) if cands else None
+    if mode == "neg" and lo < 0:
+        x = rng.choice([-1, -1, -2, -3])
+    elif mode == "top":
+        x = rng.choice([hi, hi, hi - 1, rng.randint(hi // 2, hi)])
+    else:
+        x = rng.choice([lo, hi, 0, -1, rng.randint(lo, hi), rng.randint(lo, hi)])
+    return min(max(x, lo), hi)
+
+
+def _ix_case(rng, dt, shape, form):
+    lens = _ix_lens(rng, dt, shape)
+    nr = len(lens)
+    signed = IXR[dt][0] < 0
+    rmode = ("neg" if signed else "top") if shape == "many" else None
+    cmode = ("neg" if signed else "top") if shape == "long" else None
+    bad = rng.random() < 0.08
+
+    def row(first):
+        if not signed and shape == "long" and first:
+            return nr - 1                      # a row that does not start at 0: row start + column passes the range
+        return _ix_pick(rng, nr, dt, rmode if first or rng.random() < 0.5 else None)
+
+    def col(r, first, n=None):
+        n = lens[r] if n is None else n
+        if bad and first:
+            x = _ix_pick(rng, n, dt, "bad")
+            if x is not None:
+                return x
+        return _ix_pick(rng, n, dt, cmode if first or rng.random() < 0.5 else None)
+
+    def window():
+        """a row slice selecting a few rows"""
+        a = rng.randint(0, max(0, nr - 3))
+        b = min(nr, a + rng.randint(1, 3))
+        if rng.random() < 0.3:
+            return [a - nr, b - nr if b < nr else None, None], list(range(a, b))
+        if rng.random() < 0.2 and b - 1 >= 0:
+            return [b - 1, a - 1 if a > 0 else None, -1], list(range(b - 1, a - 1, -1))
+        return [a, b, None], list(range(a, b))
+    m = rng.randint(1, 3)
+    extra = {}
+    if form in ("pairs", "pairs_view", "pairs_mixed"):
+        rs = [row(i == 0) for i in range(m)]
+        ix = {"k": "pairs", "rs": rs, "cs": [col(r, i == 0) for i, r in enumerate(rs)], "np": True}
+        if form == "pairs_view":
+            extra["ixview"] = True
+        if form == "pairs_mixed":
+            ix["np"] = rng.choice(["r", "c"])
+        extra["ixdt"] = dt
+    elif form in ("pairs_scalar", "pairs_npscalar"):
+        rs = [row(i == 0) for i in range(m)]
+        ix = {"k": "pairs_scalar", "rs": rs, "c": col(0, True, min(lens[r] for r in rs)), "np": True}
+        extra["ixdt"] = dt
+        if form == "pairs_npscalar":
+            extra["sdt"] = dt
+            ix["np"] = rng.random() < 0.5
+    elif form in ("elem_list", "npelem_list"):
+        r = row(True)
+        ix = {"k": "elem_list", "r": r, "cs": [col(r, i == 0) for i in range(m)], "np": True}
+        extra["ixdt"] = dt
+        if form == "npelem_list":
+            extra["sdt"] = dt
+            ix["np"] = rng.random() < 0.5
+    elif form == "elem":
+        r = row(True)
+        ix = {"k": "elem", "r": r, "c": col(r, True)}
+        extra["sdt"] = dt
+    elif form == "sl2_ls":
+        rs = [row(i == 0) for i in range(m)]
+        L = max(lens[r] for r in rs)
+        ix = {"k": "sl2", "rsel": {"list": rs}, "csel": {"sl": _rand_slice(rng, -L - 1, L + 1)}, "np": True}
+        extra["ixdt"] = dt
+    elif form in ("sl2_sl", "sl2_si"):
+        sl, rws = window()
+        n = min(lens[r] for r in rws)
+        if form == "sl2_sl":
+            ix = {"k": "sl2", "rsel": {"sl": sl}, "csel": {"list": [col(0, i == 0, n) for i in range(m)]}, "np": True}
+            extra["ixdt"] = dt
+        else:
+            ix = {"k": "sl2", "rsel": {"sl": sl}, "csel": {"int": col(0, True, n)}}
+            extra["sdt"] = dt
+    elif form == "rowlist":
+        ix = {"k": "rowlist", "rs": [row(i == 0) for i in range(m)], "np": True}
+        extra["ixdt"] = dt
+    elif form == "row":
+        ix = {"k": "row", "r": row(True)}
+        extra["sdt"] = dt
+    else:
+        r = row(True)
+        L = lens[r]
+        ix = {"k": "rowsl", "r": r, "sl": _rand_slice(rng, -L - 1, L + 1)}
+        extra["sdt"] = dt
+    if sum(lens) <= 600 and rng.random() < 0.25 and ix["k"] in ("pairs", "pairs_scalar", "elem_list"):
+        extra["again"] = {"lens": _ix_lens(rng, dt, shape)[:nr] if rng.random() < 0.7 else [rng.randint(1, 6)] * nr}
+    ctor = rng.choice(CTORS) if sum(lens) <= 600 else rng.choice(["flat", "flat_np"])
+    return _mk(lens, ctor, 0, ix, **extra)
+
+
+def _ixnarrow_cases(rng, n, big):
+    """index vectors (ndarrays) and index scalars of every integer dtype, on arrays whose rows are longer / more
+    numerous than the 8- and 16-bit types can count: specs dealt from a deck so that every (dtype, shape, form)
+    occurs under every seed; `big` 16-bit cases (oracle only)."""
+    deck = [(dt, sh, f) for f in IX_FORMS for sh in ("long", "many") for dt in IX_SMALL]
+    bigdeck = [(dt, sh, f) for f in IX_FORMS_BIG for sh in ("long", "many") for dt in IX_BIG]
+    cases = [_ix_case(rng, *deck[i % len(deck)]) for i in range(n)]
+    cases += [_ix_case(rng, *bigdeck[i % len(bigdeck)]) for i in range(big)]
+    return cases
+
+
+BC_FORMS = ["col", "col", "row", "row", "one", "ps1", "el1", "ps", "el"]
+BC_NP = [False, True, "r", "c"]
+
+
+def _bcast_cases(rng, n):
+    """a[R, C] with index vectors of different lengths, one of them with one entry (NumPy pairs index arrays by
+    broadcasting): n against 1, 1 against n, 1 against 1, and the scalar mixes a[[r], c], a[r, [c]], a[[..], c],
+    a[r, [..]]; lists, ndarrays, one of each; integer dtypes; negative entries; now and then an entry outside."""
+    cases = []
+    deck = [(f, q) for f in BC_FORMS for q in BC_NP]
+    for i in range(n):
+        form, q = deck[i % len(deck)]
+        nr = rng.randint(1, 5)
+        lens = [rng.randint(1, 6)] * nr if rng.random() < 0.3 else [rng.randint(1, 6) for _ in range(nr)]
+        L = min(lens)
+        rlo, rhi, clo, chi = -nr, nr - 1, -L, L - 1
+        if rng.random() < 0.12:
+            rlo, rhi, clo, chi = -nr - 1, nr, -max(lens) - 1, max(lens)
+        m = rng.randint(2, 4)
+
+        def rr():
+            return rng.randint(rlo, rhi)
+
+        def cc():
+            return rng.randint(clo, chi)
+        extra = {"ixdt": rng.choice([None, None, "int8", "int16", "int32", "uint8"] if q else [None])}
+        if extra["ixdt"] == "uint8":
+            rlo, clo = max(rlo, 0), max(clo, 0)
+        if form in ("col", "row", "one"):
+            rs = [rr() for _ in range(1 if form in ("row", "one") else m)]
+            cs = [cc() for _ in range(1 if form in ("col", "one") else m)]
+            ix = {"k": "pairs", "rs": rs, "cs": cs, "np": q}
+        elif form in ("ps1", "ps"):
+            ix = {"k": "pairs_scalar", "rs": [rr() for _ in range(1 if form == "ps1" else m)], "c": cc(), "np": q in (True, "r")}
+            if q == "c":
+                extra["sdt"] = rng.choice(["int64", "int8", "int32"])
+        else:
+            ix = {"k": "elem_list", "r": rr(), "cs": [cc() for _ in range(1 if form == "el1" else m)], "np": q in (True, "c")}
+            if q == "r":
+                extra["sdt"] = rng.choice(["int64", "int8", "int32"])
+        if rng.random() < 0.4:
+            extra["again"] = {"lens": [rng.randint(1, 6) for _ in range(nr)]}
+        cases.append(_mk(lens, rng.choice(CTORS), rng.choice([0, 0, 2]), ix, **extra))
+    return cases
+
+
+# ---- elements that are not platform integers: rows of mixed dtypes, dtype=object data -------------------------
+# (first row, a later row): the later row needs a wider dtype than the first one
+MIX_NP = [("int64", "float64"), ("bool", "int64"), ("int8", "int64"), ("float32", "float64"), ("int8", "int16"),
+          ("uint8", "int16"), ("int32", "float64"), ("bool", "float64"), ("int16", "int32"), ("bool", "int8"),
+          ("uint8", "uint16"), ("int8", "float32"), ("int32", "int64"), ("uint16", "int64")]
+MIX_PY = [("int64", "float64"), ("bool", "int64"), ("bool", "float64")]      # rows given as plain Python lists
+MIX_ORDER = ["narrow-first", "narrow-first", "narrow-first", "wide-first", "uniform"]
+MIXR = dict(IXR, bool=(0, 1))
+OBJ_KINDS = ["bigint", "frac", "objflat", "rag3"]
+
+
+def _mix_value(rng, dt, below=None):
+    """a value of dtype dt; `below` = a narrower dtype whose range (or kind) the value should leave when it can"""
+    if dt == "bool":
+        return rng.random() < 0.5
+    if dt.startswith("float"):
+        q = rng.choice([0.5, 0.25, 1.5, -0.75, 2.25, 1e3 + 0.5, -0.5, 3.0, 0.125])
+        if dt == "float64" and below == "float32" and rng.random() < 0.7:
+            q = rng.choice([0.1, 1.0 + 2.0 ** -40, 1e300, -1.0 / 3.0, 16777217.0])     # not float32 values
+        return q
+    lo, hi = MIXR[dt]
+    if below is not None and below in MIXR and rng.random() < 0.7:
+        blo, bhi = MIXR[below]
+        cands = [x for x in (bhi + 1, bhi + 45, 2 * bhi + 2, blo - 1, blo - 2, 3 * bhi) if lo <= x <= hi and not blo <= x <= bhi]
+        if cands:
+            return rng.choice(cands)
+    return rng.randint(max(lo, -9), min(hi, 9))
+
+
+def _typed_lens(rng, lo=2):
+    nr = rng.randint(lo, 5)
+    if rng.random() < 0.5:
+        return [rng.randint(1, 5)] * nr
+    return [rng.randint(1, 5) for _ in range(nr)]
+
+
+def _mixed_cases(rng, n):
+    """nested construction from rows of different dtypes: a later row wider than the first (int then float, bool then
+    int, int8 then int64, float32 then float64, ...), the widest row first, and uniform rows; ndarray rows and plain
+    Python lists; scalar elements and pairs; every read form."""
+    cases = []
+    deck = [(pair, py, order) for order in MIX_ORDER for py in (False, True)
+            for pair in (MIX_PY if py else MIX_NP)]
+    rng.shuffle(deck)
+    for i in range(n):
+        (narrow, wide), py, order = deck[i % len(deck)]
+        lens = _typed_lens(rng)
+        nr = len(lens)
+        w = rng.choice([0, 0, 0, 2])
+        if order == "uniform":
+            dts = [rng.choice([narrow, wide])] * nr
+        else:
+            dts = [rng.choice([narrow, wide]) for _ in range(nr)]
+            wpos = rng.randint(1, nr - 1)
+            dts[wpos] = wide
+            dts[0] = narrow
+            if order == "wide-first":
+                dts[0], dts[wpos] = wide, narrow
+        rvals = []
+        for dt, l in zip(dts, lens):
+            below = narrow if dt == wide and dt != narrow else None
+            if w == 0:
+                rvals.append([_mix_value(rng, dt, below) for _ in range(l)])
+            else:
+                rvals.append([[_mix_value(rng, dt, below) for _ in range(w)] for _ in range(l)])
+        c = _mk(lens, "nested" if py else "nested_np", w, _any_idx(rng, lens), el="mixed",
+                rowdt=[None if py else d for d in dts], rvals=rvals)
+        c["vals"] = None
+        c["mix"] = [narrow, wide, order]
+        cases.append(c)
+    return cases
+
+
+def _obj_elem(rng, okind, i):
+    if okind == "bigint":
+        return rng.choice([2 ** 70 + i, -2 ** 64 - i, 2 ** 64 + i, i, i, -i])      # beyond int64 AND uint64
+    if okind == "frac":
+        return ["F", rng.randint(-9, 9), rng.choice([2, 3, 5, 7])]
+    if okind == "objflat":
+        return rng.choice([i, i, 2 ** 70 + i, ["F", 2 * i + 1, 2]])
+    return ["A", [i] * rng.randint(1, 3)]
+
+
+def _object_cases(rng, n):
+    """dtype=object data -- Python ints beyond int64, Fractions, an explicit dtype=object flat array with lengths, a
+    ragged third dimension -- in arrays of one or several rows that are equally long (as often as not) or not."""
+    cases = []
+    deck = [(k, rect, one) for k in OBJ_KINDS for rect in (True, True, False) for one in (False, False, True)]
+    rng.shuffle(deck)
+    for i in range(n):
+        okind, rect, one = deck[i % len(deck)]
+        nr = 1 if one else rng.randint(2, 5)
+        lens = [rng.randint(1, 5)] * nr if rect else [rng.randint(1, 5) for _ in range(nr)]
+        tot = sum(lens)
+        while True:
+            flat = [_obj_elem(rng, okind, j) for j in range(tot)]
+            if okind == "bigint" and not any(abs(v) >= 2 ** 64 for v in flat):
+                flat[rng.randrange(tot)] = 2 ** 70          # the data must need dtype=object
+            if okind == "rag3" and len({len(e[1]) for e in flat}) < 2:
+                if tot < 2:
+                    lens = [2] * nr
+                    tot = sum(lens)
+                continue
+            break
+        rvals, s = [], 0
+        for l in lens:
+            rvals.append(flat[s:s + l])
+            s += l
+        ctor = rng.choice(["flat", "flat_np"]) if okind == "objflat" else "nested"
+        f = rng.random()
+        idx = {"k": "attrs"} if f < 0.4 else _any_idx(rng, lens)
+        c = _mk(lens, ctor, 0, idx, el="obj", okind=okind, rvals=rvals)
+        c["vals"] = None
+        cases.append(c)
+    return cases
+
+
 def _streams(rng, tier):
     if tier == "quick":
-        return _layout_cases(rng, 500) + _narrow_cases(rng, 120, 3) + _ixarg_cases(rng, 300)
-    return _layout_cases(rng, 5000) + _narrow_cases(rng, 1000, 12) + _ixarg_cases(rng, 3000)
+        return _layout_cases(rng, 500) + _narrow_cases(rng, 120, 3) + _ixarg_cases(rng, 300) + \
+            _ixnarrow_cases(rng, 280, 16) + _bcast_cases(rng, 180) + _mixed_cases(rng, 300) + _object_cases(rng, 240)
+    return _layout_cases(rng, 5000) + _narrow_cases(rng, 1000, 12) + _ixarg_cases(rng, 3000) + \
+        _ixnarrow_cases(rng, 2800, 96) + _bcast_cases(rng, 1800) + _mixed_cases(rng, 3000) + _object_cases(rng, 2400)
 
 
 def generate(rng, tier):
@@ -414,35 +772,40 @@ def _py_index(c):
     k = ix["k"]
     dt = c.get("ixdt")
 
+    sdt = c.get("sdt")
+
     def arr(xs):
         return np.array(xs, dtype=dt)
 
-    def seq(xs):
-        return arr(xs) if ix.get("np") else list(xs)
+    def seq(xs, pos="r"):
+        return arr(xs) if ix.get("np") in (True, pos) else list(xs)
+
+    def sc(x):
+        return x if sdt is None else np.dtype(sdt).type(x)
     if k == "row":
-        return ix["r"]
+        return sc(ix["r"])
     if k == "rows":
         return _sl(ix["sl"])
     if k == "rowlist":
         return seq(ix["rs"])
     if k == "elem":
-        return (ix["r"], ix["c"])
+        return (sc(ix["r"]), sc(ix["c"]))
     if k == "pairs":
-        if ix["np"] and c.get("ixview"):
+        if ix["np"] is True and c.get("ixview"):
             table = np.array([ix["rs"], ix["cs"]], dtype=dt).T.copy()      # one row per selected element
             return (table[:, 0], table[:, 1])
-        return (seq(ix["rs"]), seq(ix["cs"]))
+        return (seq(ix["rs"]), seq(ix["cs"], "c"))
     if k == "pairs_scalar":
-        return (seq(ix["rs"]), ix["c"])
+        return (seq(ix["rs"]), sc(ix["c"]))
     if k == "elem_list":
-        return (ix["r"], seq(ix["cs"]))
+        return (sc(ix["r"]), seq(ix["cs"], "c"))
     if k == "rowsl":
-        return (ix["r"], _sl(ix["sl"]))
+        return (sc(ix["r"]), _sl(ix["sl"]))
     if k == "sl2":
         rs = ix["rsel"]
         cs = ix["csel"]
         r = _sl(rs["sl"]) if "sl" in rs else seq(rs["list"])
-        cc = _sl(cs["sl"]) if "sl" in cs else (cs["int"] if "int" in cs else seq(cs["list"]))
+        cc = _sl(cs["sl"]) if "sl" in cs else (sc(cs["int"]) if "int" in cs else seq(cs["list"], "c"))
         return (r, cc)
     raise KeyError(k)
 
@@ -515,7 +878,143 @@ def _read(a, c, ixobj):
         return {"err": type(ex).__name__, "msg": str(ex)[:200]}
 
 
+# ---- typed-element streams (rows of mixed dtypes, dtype=object data): implementation side ------------------------
+def _dec(e):
+    """element of a case -> the Python object stored in the array"""
+    if isinstance(e, list):
+        if e[0] == "F":
+            from fractions import Fraction
+            return Fraction(e[1], e[2])
+        return np.array(e[1], dtype=int)
+    return e
+
+
+def _enc(e):
+    """an element read back -> JSON value (int | float | bool | ["F", n, d] | ["A", [..]])"""
+    from fractions import Fraction
+    if isinstance(e, Fraction):
+        return ["F", e.numerator, e.denominator]
+    if isinstance(e, np.ndarray):
+        if e.ndim == 0:
+            return _enc(e.item())
+        return ["A", [_enc(x) for x in e]]
+    if isinstance(e, np.generic):
+        return e.item()
+    if isinstance(e, (bool, int, float)):
+        return e
+    raise _Bad("unexpected element %r of type %s" % (e, type(e).__name__))
+
+
+def _obj_row(elems):
+    """1-D object array holding exactly these elements"""
+    row = np.empty(len(elems), dtype=object)
+    for i, e in enumerate(elems):
+        row[i] = e
+    return row
+
+
+def _tgiven(c, lens=None):
+    """the rows as they are handed to the constructor, and the list-of-rows reference (per-row numpy arrays)"""
+    if c["el"] == "mixed":
+        given = [list(v) if dt is None else np.array(v, dtype=dt) for v, dt in zip(c["rvals"], c["rowdt"])]
+        whole = np.concatenate([np.asarray(g) for g in given])
+        ref, s = [], 0
+        for l in c["lens"]:
+            ref.append(whole[s:s + l])
+            s += l
+        return given, ref
+    rows = [[_dec(e) for e in r] for r in c["rvals"]]
+    return rows, [_obj_row(r) for r in rows]
+
+
+def _tbuild(c):
+    from enspara.ra.ra import RaggedArray
+    given, ref = _tgiven(c)
+    if c["ctor"] in ("nested", "nested_np"):
+        if c["el"] == "obj" and c["okind"] == "rag3":
+            given = [[e.tolist() for e in r] for r in given]      # nested lists three deep
+        return RaggedArray(given), ref
+    flat = _obj_row([e for r in given for e in r])
+    lens = list(c["lens"]) if c["ctor"] == "flat" else np.array(c["lens"])
+    return RaggedArray(flat, lengths=lens), ref
+
+
+def _dtnames(arrs):
+    out = set()
+    for x in arrs:
+        x = x if isinstance(x, np.ndarray) else np.asarray(x)
+        if x.size > 0:
+            out.add(str(x.dtype))
+    return sorted(out)
+
+
+def _shape2(shp):
+    return [None if x is None else int(x) for x in tuple(shp)[:2]]
+
+
+def _tcanon(res):
+    from enspara.ra.ra import RaggedArray
+    if isinstance(res, RaggedArray):
+        rows = [[_enc(e) for e in row] for row in res._array]
+        lens = [int(x) for x in res.lengths]
+        flat = [_enc(e) for e in res._data]
+        it = [[_enc(e) for e in row] for row in res]
+        byi = [[_enc(e) for e in res[i]] for i in range(len(lens))]
+        if [len(r) for r in rows] != lens or [e for r in rows for e in r] != flat or len(res) != len(rows) \
+                or it != rows or byi != rows:
+            raise _Bad("incoherent RaggedArray result: rows %r lengths %r flat %r iterated %r read by a[i] %r" % (
+                rows, lens, flat, it, byi))
+        return {"ra": rows, "shape2": _shape2(res.shape),
+                "dts": _dtnames(list(res._array) + [r for r in res] + [res[i] for i in range(len(lens))] + [res._data])}
+    a = res if isinstance(res, np.ndarray) else np.asarray(res)
+    if a.dtype == object:
+        return {"flat": [_enc(e) for e in a], "dts": _dtnames([a])}
+    return {"flat": [_enc(e) for e in (a.reshape(-1) if a.ndim <= 1 else a)], "dts": _dtnames([a])}
+
+
+def _tread(x, c, ixobj, canon, where, mk):
+    """the case's read on x (the RaggedArray, or the reference rows wrapped by `mk`)"""
+    ix = c["idx"]
+    try:
+        if ix["k"] == "mask":
+            m = mk([list(r) for r in ix["m"]])
+            out = canon(x[m])
+            wr, wc = where(m)
+            out["where"] = [[int(v) for v in wr], [int(v) for v in wc]]
+            return out
+        return canon(x[ixobj])
+    except _Bad as ex:
+        return {"err": "Bad", "msg": str(ex)[:300]}
+    except Exception as ex:
+        return {"err": type(ex).__name__, "msg": str(ex)[:200]}
+
+
+def _trun(c):
+    from enspara.ra import ra as ramod
+    from enspara.ra.ra import RaggedArray
+    try:
+        a, _ = _tbuild(c)
+    except Exception as ex:
+        return {"err": "ctor:" + type(ex).__name__, "msg": str(ex)[:200]}
+    if c["idx"]["k"] == "attrs":
+        try:
+            n = len(a.lengths)
+            return {"lengths": [int(x) for x in a.lengths], "starts": [int(x) for x in a.starts],
+                    "shape": [None if x is None else int(x) for x in a.shape], "size": int(a.size), "len": len(a),
+                    "iter": [[_enc(e) for e in r] for r in a], "rows": [[_enc(e) for e in a[i]] for i in range(n)],
+                    "flatten": [_enc(e) for e in a.flatten()], "dtype": str(a.dtype),
+                    "dts": _dtnames([r for r in a] + [a[i] for i in range(n)] + [a.flatten()])}
+        except _Bad as ex:
+            return {"err": "Bad", "msg": str(ex)[:300]}
+        except Exception as ex:
+            return {"err": type(ex).__name__, "msg": str(ex)[:200]}
+    ixobj = None if c["idx"]["k"] == "mask" else _py_index(c)
+    return _tread(a, c, ixobj, _tcanon, ramod.where, RaggedArray)
+
+
 def run_impl(c):
+    if "el" in c:
+        return _trun(c)
     w = c["w"]
     try:
         a, rows, flat = _build(c)
@@ -582,7 +1081,7 @@ def _reference(c, lens=None):
         if k == "elem":
             return {"flat": [int(rows[ix["r"]][ix["c"]])]}
         if k == "pairs":
-            return {"flat": [int(rows[r][cc]) for r, cc in zip(ix["rs"], ix["cs"])]}
+            return {"flat": [int(rows[r][cc]) for r, cc in _bpairs(ix["rs"], ix["cs"])]}
         if k == "pairs_scalar":
             return {"flat": [int(rows[r][ix["c"]]) for r in ix["rs"]]}
         if k == "elem_list":
@@ -607,6 +1106,18 @@ def _reference(c, lens=None):
     raise KeyError(k)
 
 
+def _bpairs(rs, cs):
+    """NumPy pairs two index vectors by broadcasting: equally long element by element, a one-entry vector
+    against every entry of the other (other pairs of lengths are not generated)."""
+    if len(rs) != len(cs):
+        assert 1 in (len(rs), len(cs)), (rs, cs)
+        if len(cs) == 1:
+            cs = list(cs) * len(rs)
+        else:
+            rs = list(rs) * len(cs)
+    return list(zip(rs, cs))
+
+
 def _key(c):
     ix = c["idx"]
     k = ix["k"]
@@ -625,11 +1136,129 @@ def _short(x):
     return t if len(t) < 700 else t[:340] + " ... " + t[-340:]
 
 
+def _lens_str(lens):
+    if len(lens) < 40:
+        return str(list(lens))
+    return "<%d rows of lengths %d..%d, %d elements: %s ...>" % (len(lens), min(lens), max(lens), sum(lens), str(list(lens[:12]))[:-1])
+
+
 def _opts(c):
-    return " ".join("%s=%s" % (k, c[k]) for k in ("lay", "copy", "ldt", "ixdt", "ixview") if k in c)
+    return " ".join("%s=%s" % (k, c[k]) for k in ("lay", "copy", "ldt", "ixdt", "ixview", "sdt") if k in c)
+
+
+def _tref(c):
+    """the same read on the plain list of per-row numpy arrays"""
+    _, rows = _tgiven(c)
+    ix, k = c["idx"], c["idx"]["k"]
+    lens = c["lens"]
+    dt = _dtnames(rows)
+
+    def ra(rs):
+        rs = [[_enc(e) for e in r] for r in rs]
+        ls = [len(r) for r in rs]
+        return {"ra": rs, "shape2": [len(rs), (ls[0] if all(l == ls[0] for l in ls) else None) if rs else None],
+                "dts": dt if any(ls) else []}
+
+    def fl(es):
+        es = [_enc(e) for e in es]
+        return {"flat": es, "dts": dt if es else []}
+    try:
+        if k == "attrs":
+            rect = all(l == lens[0] for l in lens)
+            third = [None] if c.get("okind") == "rag3" else ([c["w"]] if c["w"] else [])
+            whole = np.concatenate(rows)
+            return {"lengths": list(lens), "starts": [sum(lens[:i]) for i in range(len(lens))],
+                    "shape": [len(lens), lens[0] if rect else None] + third, "size": int(sum(r.size for r in rows)),
+                    "len": len(lens), "iter": [[_enc(e) for e in r] for r in rows],
+                    "rows": [[_enc(e) for e in r] for r in rows], "flatten": [_enc(e) for e in whole.reshape(-1)],
+                    "dtype": str(whole.dtype), "dts": dt}
+        if k == "row":
+            return fl(rows[ix["r"]])
+        if k == "rows":
+            return ra(rows[_sl(ix["sl"])])
+        if k == "rowlist":
+            return ra([rows[r] for r in ix["rs"]])
+        if k == "elem":
+            return fl([rows[ix["r"]][ix["c"]]])
+        if k == "pairs":
+            return fl([rows[r][cc] for r, cc in _bpairs(ix["rs"], ix["cs"])])
+        if k == "pairs_scalar":
+            return fl([rows[r][ix["c"]] for r in ix["rs"]])
+        if k == "elem_list":
+            return fl([rows[ix["r"]][cc] for cc in ix["cs"]])
+        if k == "rowsl":
+            return fl(rows[ix["r"]][_sl(ix["sl"])])
+        if k == "mask":
+            out = fl([v for r, m in zip(rows, ix["m"]) for v in r[np.array(m, dtype=bool)]])
+            out["where"] = [[i for i, m in enumerate(ix["m"]) for b in m if b],
+                            [j for m in ix["m"] for j, b in enumerate(m) if b]]
+            return out
+        if k == "sl2":
+            rs, cs = ix["rsel"], ix["csel"]
+            sel = rows[_sl(rs["sl"])] if "sl" in rs else [rows[r] for r in rs["list"]]
+            if "sl" in cs:
+                return ra([r[_sl(cs["sl"])] for r in sel])
+            if "int" in cs:
+                return ra([[r[cs["int"]]] for r in sel])
+            return ra([[r[cc] for cc in cs["list"]] for r in sel])
+    except IndexError:
+        return {"err": "IndexError"}
+    raise KeyError(k)
+
+
+def _tdesc(c):
+    if c["el"] == "mixed":
+        return "rows of dtypes %s (%s), values %s" % (
+            ["list" if d is None else d for d in c["rowdt"]], "Python lists" if c["ctor"] == "nested" else "ndarrays",
+            _short(c["rvals"]))
+    return "dtype=object data (%s, ctor %s), rows %s" % (c["okind"], c["ctor"], _short(c["rvals"]))
+
+
+def _toracle(c, r):
+    exp = _tref(c)
+    got = _strip(r)
+    if got == exp:
+        return []
+    what = _tdesc(c)
+    out = []
+    if "err" in got or "err" in exp:
+        return [(_key(c), "%s, idx %s: implementation %s, list of rows %s" % (what, c["idx"], _short(got), _short(exp)))]
+    if c["idx"]["k"] == "attrs":
+        for f, key in (("shape", "attrs-shape"), ("size", "attrs-size"), ("dtype", "attrs-dtype"), ("dts", "row-dtype")):
+            if got.get(f) != exp.get(f):
+                out.append((key, "%s: %s is %s; the list of rows gives %s" % (what, f, got.get(f), exp.get(f))))
+        rest = ("lengths", "starts", "len", "iter", "rows", "flatten")
+        if any(got.get(f) != exp.get(f) for f in rest) or not out:
+            out.append(("attrs", "%s: implementation %s, list of rows %s" % (
+                what, _short({f: got.get(f) for f in rest}), _short({f: exp.get(f) for f in rest}))))
+        return out
+    vg = {f: v for f, v in got.items() if f not in ("dts", "shape2")}
+    ve = {f: v for f, v in exp.items() if f not in ("dts", "shape2")}
+    if vg != ve or not _same_types(vg, ve):
+        out.append((_key(c), "%s, idx %s: implementation %s, list of rows %s" % (what, c["idx"], _short(got), _short(exp))))
+    if got.get("dts") != exp.get("dts"):
+        out.append(("row-dtype", "%s, idx %s: the arrays returned (rows as stored / iterated / read by a[i], flat data) "
+                    "have dtypes %s; the rows of the list of rows have %s" % (what, c["idx"], got.get("dts"), exp.get("dts"))))
+    if got.get("shape2") != exp.get("shape2"):
+        out.append(("result-shape", "%s, idx %s: the RaggedArray read has rows %s and reports shape %s; the list of rows "
+                    "gives %s" % (what, c["idx"], _short(got.get("ra")), got.get("shape2"), exp.get("shape2"))))
+    if not out:
+        out.append((_key(c), "%s, idx %s: implementation %s, list of rows %s" % (what, c["idx"], _short(got), _short(exp))))
+    return out
+
+
+def _same_types(a, b):
+    """equal JSON values whose scalars also have the same Python type (True == 1 == 1.0 otherwise)"""
+    if isinstance(a, dict) and isinstance(b, dict):
+        return a.keys() == b.keys() and all(_same_types(a[k], b[k]) for k in a)
+    if isinstance(a, list) and isinstance(b, list):
+        return len(a) == len(b) and all(_same_types(x, y) for x, y in zip(a, b))
+    return type(a) is type(b) and a == b
 
 
 def oracle(c, r):
+    if "el" in c:
+        return _toracle(c, r)
     out = []
     exp = _reference(c)
     got = {k: v for k, v in _strip(r).items() if k not in ("again", "argmod", "dtk")}
@@ -637,9 +1266,9 @@ def oracle(c, r):
         if rr.get("dtk") not in (None, [], ["i"]):
             out.append(("row-dtype", "lens %s ctor %s w %d %s idx %s%s: the arrays returned (rows as stored / iterated / "
                         "read by a[i], flat data) have dtype kinds %s; the rows of the list-of-rows model are integer "
-                        "arrays like the data put in" % (c["lens"] if len(c["lens"]) < 40 else "...", c["ctor"], c["w"],
+                        "arrays like the data put in" % (_lens_str(c["lens"]), c["ctor"], c["w"],
                                                          _opts(c), c["idx"], which, rr["dtk"])))
-    lens = c["lens"] if len(c["lens"]) < 40 else _short(c["lens"])
+    lens = _lens_str(c["lens"])
     if got != exp:
         out.append((_key(c), "lens %s ctor %s w %d %s idx %s: implementation %s, list of rows %s" % (
             lens, c["ctor"], c["w"], _opts(c), c["idx"], _short(got), _short(exp))))
@@ -733,7 +1362,7 @@ def _cread(c, conc, r):
 
 
 def coq_check(c, r):
-    if sum(c["lens"]) > COQ_MAX:
+    if sum(c["lens"]) > COQ_MAX or "el" in c:       # the model works over Z: typed elements are judged by the oracle
         return None
     conc = _cconc(c)
     if c["idx"]["k"] == "attrs":
@@ -765,14 +1394,125 @@ def coq_show(c):
 def nontrivial(c, r):
     if len(c["lens"]) < 2 or c["idx"]["k"] == "attrs":
         return len(c["lens"]) >= 2
+    if "el" in c:
+        return "err" in r or len(r.get("flat") if "flat" in r else [e for row in r["ra"] for e in row]) > 0
     if "err" in r:
         return True
     vals = r.get("flat") if "flat" in r else [e for row in r["ra"] for e in row]
     return 0 < len(vals) < len(_vals(c)) or (len(vals) > 0 and vals != _vals(c))
 
 
+def _ix_tags(c):
+    """honest account of the index dtypes: which vectors / scalars are held in which dtype, and whether resolving
+    them leaves that dtype's range (negative row + number of rows, negative column + row length, row start +
+    column beyond the dtype's maximum)."""
+    ix, k = c["idx"], c["idx"]["k"]
+    q = ix.get("np")
+    vdt, sdt = c.get("ixdt"), c.get("sdt")
+    t = []
+    rdt = cdt = None
+    pairs = []
+    if k == "pairs":
+        rdt, cdt = (vdt if q in (True, "r") else None), (vdt if q in (True, "c") else None)
+        pairs = _bpairs(ix["rs"], ix["cs"])
+        if len(ix["rs"]) != len(ix["cs"]):
+            t.append("pairs-broadcast-col" if len(ix["cs"]) == 1 else "pairs-broadcast-row")
+        elif len(ix["rs"]) == 1:
+            t.append("pairs-one-one")
+        if q in ("r", "c"):
+            t.append("idx-mixed-list-ndarray")
+    elif k == "pairs_scalar":
+        rdt, cdt = (vdt if q else None), sdt
+        pairs = [(r, ix["c"]) for r in ix["rs"]]
+        if len(ix["rs"]) == 1:
+            t.append("pairs-scalar-one-row")
+    elif k == "elem_list":
+        rdt, cdt = sdt, (vdt if q else None)
+        pairs = [(ix["r"], x) for x in ix["cs"]]
+        if len(ix["cs"]) == 1:
+            t.append("elem-list-one-col")
+    elif k == "elem":
+        rdt = cdt = sdt
+        pairs = [(ix["r"], ix["c"])]
+    elif k == "sl2":
+        if "list" in ix["rsel"]:
+            rdt = vdt if q else None
+            pairs = [(r, 0) for r in ix["rsel"]["list"]]
+        if "list" in ix["csel"] and q:
+            t.append("idx-col-" + str(vdt or "int64"))
+    elif k in ("rowlist",):
+        rdt = vdt if q else None
+        pairs = [(r, 0) for r in ix["rs"]]
+    elif k in ("row", "rowsl"):
+        rdt = sdt
+        pairs = [(ix["r"], 0)]
+    if sdt:
+        t.append("idx-scalar-" + sdt)
+    if not (rdt or cdt):
+        return t
+    lens = c["lens"]
+    nr = len(lens)
+    starts = [0]
+    for l in lens[:-1]:
+        starts.append(starts[-1] + l)
+    for r, cc in pairs:
+        if rdt and r < 0 and r + nr > IXR[rdt][1]:
+            t.append("ix-negrow-leaves-" + rdt)
+        r1 = r + nr if r < 0 else r
+        if not 0 <= r1 < nr:
+            continue
+        if rdt and r1 > 127:
+            t.append("ix-row-beyond-127")
+        L = lens[r1]
+        if cdt and cc < 0 and cc + L > IXR[cdt][1]:
+            t.append("ix-negcol-leaves-" + cdt)
+        c1 = cc + L if cc < 0 else cc
+        if cdt and 0 <= c1 < L and starts[r1] + c1 > IXR[cdt][1]:
+            t.append("ix-offset-leaves-" + cdt)
+    return t
+
+
+def _typed_tags(c, r):
+    t = ["el-" + c["el"], "oracle-only-typed"]
+    rect = all(l == c["lens"][0] for l in c["lens"])
+    if c["el"] == "mixed":
+        narrow, wide, order = c["mix"]
+        t.append("mixed-" + order)
+        t.append("mixed-python-lists" if c["ctor"] == "nested" else "mixed-ndarray-rows")
+        if order == "narrow-first":
+            t.append("mixed-later-row-wider")
+            kn, kw = np.dtype(narrow).kind, np.dtype(wide).kind
+            if kn in "iu" and kw == "f":
+                t.append("mixed-int-then-float")
+            elif kn == "b" and kw in "iu":
+                t.append("mixed-bool-then-int")
+            elif kn == "b":
+                t.append("mixed-bool-then-float")
+            elif kn in "iu":
+                t.append("mixed-narrow-int-then-wide-int")
+                if any(isinstance(v, int) and not IXR[narrow][0] <= v <= IXR[narrow][1]
+                       for row in c["rvals"] for e in row for v in (e if isinstance(e, list) else [e])):
+                    t.append("mixed-value-beyond-first-row-dtype")
+            else:
+                t.append("mixed-float32-then-float64")
+            if c["w"]:
+                t.append("mixed-later-row-wider-vector-elements")
+    else:
+        t.append("obj-" + c["okind"])
+        t.append("obj-rect" if rect else "obj-ragged")
+        if len(c["lens"]) == 1:
+            t.append("obj-single-row")
+        if c["idx"]["k"] == "attrs":
+            t.append("obj-attrs-rect" if rect else "obj-attrs-ragged")
+            if rect:
+                t.append("obj-attrs-rect-" + c["okind"])
+        elif "ra" in r and r.get("shape2", [0, None])[1] is not None and r["shape2"][0] > 0:
+            t.append("obj-read-gives-equal-rows")
+    return t
+
+
 def tags(c, r):
-    t = [_key(c), "ctor-" + c["ctor"], "w%d" % c["w"]]
+    t = [_key(c), "ctor-" + c["ctor"], "w%d" % c["w"]] + _ix_tags(c)
     t.append("rect" if all(l == c["lens"][0] for l in c["lens"]) else "ragged")
     if c.get("lay"):
         t.append("lay-" + c["lay"])
@@ -795,6 +1535,8 @@ def tags(c, r):
             t.append("idx-" + c["ixdt"])
     if "again" in c:
         t.append("idx-reused-on-second-array")
+    if "el" in c:
+        t += _typed_tags(c, r)
     if sum(c["lens"]) > COQ_MAX:
         t.append("oracle-only-large")
     if r.get("dtk"):
@@ -833,7 +1575,20 @@ ESSENTIAL_TAGS = ["row", "rows", "rowlist", "elem", "pairs", "pairs_scalar", "el
                   "ldt-int8", "ldt-uint8", "ldt-int16", "ldt-uint16", "lens-total-exceeds-dtype",
                   "lens-total-exceeds-int8", "lens-total-exceeds-uint8", "lens-total-exceeds-int16",
                   "lens-total-exceeds-uint16", "idx-ndarray-negative", "idx-ndarray-view",
-                  "idx-reused-on-second-array", "dtype-kind-compared"]
+                  "idx-reused-on-second-array", "dtype-kind-compared",
+                  "idx-int8", "idx-uint8", "idx-int16", "idx-uint16", "idx-int32", "idx-uint32", "idx-uint64",
+                  "idx-scalar-int8", "idx-scalar-uint8", "idx-scalar-int16", "idx-scalar-uint16", "idx-scalar-int32",
+                  "ix-negcol-leaves-int8", "ix-negrow-leaves-int8", "ix-negcol-leaves-int16", "ix-negrow-leaves-int16",
+                  "ix-offset-leaves-int8", "ix-offset-leaves-uint8", "ix-offset-leaves-int16", "ix-offset-leaves-uint16",
+                  "ix-row-beyond-127", "pairs-broadcast-col", "pairs-broadcast-row", "pairs-one-one",
+                  "pairs-scalar-one-row", "elem-list-one-col", "idx-mixed-list-ndarray",
+                  "el-mixed", "mixed-later-row-wider", "mixed-wide-first", "mixed-uniform", "mixed-python-lists",
+                  "mixed-ndarray-rows", "mixed-int-then-float", "mixed-bool-then-int", "mixed-bool-then-float",
+                  "mixed-narrow-int-then-wide-int", "mixed-value-beyond-first-row-dtype", "mixed-float32-then-float64",
+                  "mixed-later-row-wider-vector-elements",
+                  "el-obj", "obj-bigint", "obj-frac", "obj-objflat", "obj-rag3", "obj-rect", "obj-ragged",
+                  "obj-single-row", "obj-attrs-rect", "obj-attrs-ragged", "obj-attrs-rect-bigint", "obj-attrs-rect-frac",
+                  "obj-attrs-rect-objflat", "obj-attrs-rect-rag3", "obj-read-gives-equal-rows"]
 
 
 def search(rng, tier):
